@@ -64,9 +64,16 @@ RULE = ("three conditioning modes of HyMMSBMSampler.sample: (A) initial hypergra
         "(D) sample(deg_seq=d) - d sparse / all positive / random, the size sequence drawn by the inner model - and sample(dim_seq=m), single calls and "
         "inside sessions; sessions with 1-3 further calls put in at random positions: the two new kinds and sequence calls that raise inside _match_sequences "
         "(a size < 1 before / after an extraction ran out of nodes); direct _match_sequences calls with all four flag pairs, 1-3 calls on ONE sampler, sequences "
-        "from a hypergraph or random, sizes 0..N+2, no node of degree 0 - returning and raising ones in any order")
+        "from a hypergraph or random, sizes 0..N+2, no node of degree 0 - returning and raising ones in any order; round f (own PRNG): (U) sample_truncated_poisson as a "
+        "unit under a SCRIPTED generator (uniforms all 0 / all 1-2^-53 / 2^-53 / the extreme values in turn, Poisson draws 0 for every rate <= 36) for every rate regime "
+        "(1e-300..1e-3, ~1, 7.5..36, 40..500, 690..1e5), homogeneous and mixed 1-D arrays, scalars float / numpy / int - every draw an integer >= 1; the adversarial "
+        "source of the sampler cases (ustream > 0) also turns Poisson draws of the sampler's own generator into 0; (Z) degenerate sizes: initial hypergraphs with 1-3 "
+        "one-node hyperedges (15 % also the empty hyperedge) and degree/size sequences with the key 1, judged by the property's words alone; (F) frozen chains: initial "
+        "hypergraph, burn_in = intermediate = 0, one community with u = c/8 (c = 1..1024: means from 1e-3 to thousands), 5 samples, each must be the initial hypergraph")
 ASSUMPTIONS = [
-    "initial hypergraphs have hyperedges of size >= 2 and size sequences have keys >= 2 (a size-1 entry is extracted and dropped by the sampler; the property speaks of sizes >= 2)",
+    "the model's whole-run functions have initial hyperedges of size >= 2 and size-sequence keys >= 2; degenerate sizes (one-node / empty hyperedges, the key 1) are judged on the "
+    "implementation (stream Z) and their chain and output stage replayed on the model (`chain`, `outd`: C16.outputStageD - nan mean, non-positive weight): they count in the conditioning (nothing may exceed it), never appear in a sample (the code drops them: nan mean -> non-positive weight; the construction "
+    "from sequences extracts and forgets them), and exactness is demanded for the hyperedges of size >= 2 of the chain state; an input with the EMPTY hyperedge may raise (no output)",
     "matching_sequences is the report of the most recently STARTED sequence-conditioned call (an attribute of the sampler object): it is read right after the first sample of a call; sample(initial_hyg=...) makes no report",
     "in a session every call's deg_seq has one entry per row of u and every initial hypergraph at most as many nodes as u has rows (the sampler's internal ids are row indices)",
     "labels reach the model over the naturals through an order isomorphism onto naturals (C16_hyg_any_labels: the choice of the names is immaterial) and, "
@@ -204,9 +211,23 @@ class AdvRng(hgxv.RngProxy):
                 for i in range(len(r)):
                     if (i + c) % self._every == 0:
                         r[i] = EXTREME_U[(i // self._every + c) % len(EXTREME_U)]
+            if name == "poisson" and self._every:
+                r = adversarial_poisson(r, a[0] if a else k.get("lam", 1.0))
             self._log.append((self._source, name, a, k, r))
             return r
         return wrapper
+
+
+# a Poisson draw of 0 has probability exp(-rate): for rates up to 36.7 that is at least 2^-53, the probability of the extreme
+# uniforms above - the adversarial draw source delivers it (larger rates: the real draw)
+POISSON_ZERO_UP_TO = 36.0
+
+
+def adversarial_poisson(r, lam):
+    import numpy as np
+    lam_b = np.broadcast_to(np.asarray(lam, dtype=float), np.shape(r))
+    out = np.where(lam_b <= POISSON_ZERO_UP_TO, 0, np.asarray(r))
+    return out.astype(np.asarray(r).dtype) if isinstance(r, np.ndarray) else type(r)(out)
 
 
 def build_sampler(trace, u, w, D, exact, burn, thin, seed, ustream=0):
@@ -2329,6 +2350,265 @@ def direct_trunc(ctx, drv, rng):
         ctx.disagree(case, f"sample_truncated_poisson: model max(quantile, 1) = {a!r}, implementation {want!r} (quantiles {q})")
 
 
+# ------------------------------------------------------------------------------------------
+# round f: the truncated-Poisson sampler as a unit under a SCRIPTED generator, degenerate sizes, frozen chains
+
+class ScriptRng(hgxv.RngProxy):
+    """a numpy Generator whose draws are scripted: `random(...)` has the shape of the real call but its entries follow `plan`
+    (a constant extreme value, or the extreme values in turn); `poisson(...)` returns 0 wherever the rate is <= 36 (an outcome
+    at least as likely as the extreme uniforms); every other method is the real one.  All values are legal outcomes."""
+
+    def __init__(self, real, log, plan):
+        super().__init__(real, log, "own")
+        object.__setattr__(self, "_plan", plan)
+
+    def __getattr__(self, name):
+        attr = getattr(self._real, name)
+        if not callable(attr):
+            return attr
+
+        def wrapper(*a, **k):
+            import numpy as np
+            r = attr(*a, **k)
+            if name in ("random", "uniform") and (name == "random" or (not a and set(k) <= {"size"})):
+                arr = np.array(r, dtype=float)
+                flat = arr.ravel()
+                for i in range(len(flat)):
+                    flat[i] = self._plan[i % len(self._plan)]
+                r = flat.reshape(arr.shape) if isinstance(r, np.ndarray) else float(flat[0])
+            elif name == "poisson":
+                r = adversarial_poisson(r, a[0] if a else k.get("lam", 1.0))
+            self._log.append((self._source, name, a, k, r))
+            return r
+        return wrapper
+
+
+# every rate regime of the sampler: clipped / tiny (p rounds to P(X = 0) or to 1), around 1, around a "large rate" cut-off
+# (8 .. 40), 50 .. 500, and beyond 700 where exp(-rate) is subnormal / zero
+TP_REGIMES = {
+    "tiny": [1.0e-300, 1.0e-30, 1.0e-16, 1.0e-10, 3.0e-9, 1.0e-6, 1.0e-3],
+    "one": [0.05, 0.3, 0.6931, 1.0, 1.5, 2.5, 4.0],
+    "ten": [7.5, 9.99, 10.0, 10.5, 11.0, 12.5, 14.0, 15.0, 16.0, 20.0, 25.0, 30.0, 36.0],
+    "fifty": [40.0, 50.0, 64.0, 100.0, 256.0, 500.0],
+    "huge": [690.0, 700.0, 708.0, 745.0, 746.0, 800.0, 5000.0, 1.0e5],
+}
+TP_PLANS = [[0.0], [1.0 - 2.0 ** -53], [2.0 ** -53], [0.5], EXTREME_U, [0.0, 1.0 - 2.0 ** -53], [1.0 - 2.0 ** -24, 2.0 ** -30, 0.25]]
+
+
+def unit_trunc(ctx, rng):
+    """documented contract of sample_truncated_poisson (Y = X | X > 0: every draw an integer >= 1, one per rate, finite) for
+    every rate regime, homogeneous and mixed 1-D arrays, scalars (float, int, numpy scalar), under the scripted
+    generator; the same script gives the same values"""
+    import numpy as np
+    from hypergraphx.generation import hy_mmsbm_sampling as S
+    regime = rng.choice(list(TP_REGIMES) + ["mixed", "mixed", "ten"])
+    shape_kind = rng.choice(["array", "array", "array", "scalar", "one"])
+    k = {"scalar": 1, "one": 1}.get(shape_kind, rng.randint(2, 9))
+    pool = [m for v in TP_REGIMES.values() for m in v] if regime == "mixed" else TP_REGIMES[regime]
+    means = [rng.choice(pool) for _ in range(k)]
+    if regime == "mixed" and k > 1:
+        means[rng.randrange(k)] = rng.choice(TP_REGIMES["ten"])        # a mixed array always holds a rate around 10
+    stype = rng.choice(["float", "npfloat", "int"]) if shape_kind == "scalar" else None
+    if stype == "int":
+        means = [float(max(1, round(means[0])))]
+    plan = rng.choice(TP_PLANS)
+    seed = rng.randint(0, 10**6)
+    case = {"mode": "trunc_unit", "regime": regime, "means": means, "shape": shape_kind, "stype": stype, "plan": plan, "seed": seed}
+    outs = []
+    for _ in range(2):
+        g = ScriptRng(np.random.default_rng(seed), [], plan)
+        if shape_kind == "scalar":
+            arg = {"float": float, "npfloat": np.float64, "int": int}[stype](means[0])
+        else:
+            arg = np.array(means, dtype=float)
+        try:
+            with time_limit(5), np.errstate(all="ignore"):
+                r = S.sample_truncated_poisson(arg, g)
+            outs.append([x for x in np.atleast_1d(np.asarray(r, dtype=float)).ravel()])
+        except Timeout:
+            outs.append("timeout")
+        except Exception as e:  # noqa: BLE001
+            outs.append("exc " + type(e).__name__ + ": " + str(e)[:80])
+    ctx.case(repr(case), not isinstance(outs[0], str), sample=case)
+    ctx.count("unit_trunc")
+    ctx.count("unit_trunc_" + regime)
+    if isinstance(outs[0], str):
+        ctx.violation(case, f"sample_truncated_poisson on positive rates: {outs[0]}")
+        return
+    if repr(outs[0]) != repr(outs[1]):
+        ctx.violation(case, f"sample_truncated_poisson: same generator, same script, different values {outs[0]} / {outs[1]}")
+    vals = outs[0]
+    if len(vals) != len(means):
+        ctx.violation(case, f"sample_truncated_poisson returned {len(vals)} values for {len(means)} rates")
+        return
+    bad = [(i, float(vals[i]), means[i]) for i in range(len(vals)) if (nat_of(vals[i]) or 0) < 1]
+    if bad:
+        ctx.violation(case, "sample_truncated_poisson (Y = X | X > 0) returned values that are no integers >= 1 (index, value, rate): "
+                      f"{bad[:4]} with the uniforms scripted as {plan} and Poisson draws of 0 for rates <= {POISSON_ZERO_UP_TO} - `sample` drops such hyperedges")
+
+
+def gen_degenerate(rng):
+    """initial hypergraphs / size sequences with degenerate sizes: hyperedges with ONE node (several, repeated nodes, next to
+    hyperedges that contain the node), sometimes the EMPTY hyperedge; sequences with the key 1"""
+    N = rng.randint(3, 8)
+    u, w = gen_uw(rng, N)
+    base = {"u": u, "w": w, "D": None, "exact": True, "burn": rng.choice([0, 0, 1, 5, 40]), "thin": rng.choice([0, 0, 1, 5]),
+            "seed": rng.randint(0, 10**6), **gen_magnitude(rng), "ustream": rng.choice([0, 0, 1, 2]), "degenerate": True}
+    if rng.random() < 0.6:
+        labels = list(range(N)) if rng.random() < 0.6 else sorted(rng.sample(range(-5, 40), N))
+        edges = [list(e) for e in gen_edges(rng, labels, rng.randint(1, 6))]
+        singles = rng.sample(labels, rng.randint(1, min(3, N)))
+        edges += [[x] for x in singles]
+        if rng.random() < 0.15:
+            edges.append([])
+        rng.shuffle(edges)
+        used = {x for e in edges for x in e}
+        return {"mode": "hyg", "edges": edges, "isolated": [x for x in labels if x not in used], "lkind": "num", "weighted": False, **base}
+    # sequences taken from a configuration with one-node hyperedges: mostly matching
+    cfg = [list(e) for e in gen_edges(rng, list(range(N)), rng.randint(1, 6))] + [[rng.randrange(N)] for _ in range(rng.randint(1, 3))]
+    dg, sz = count_deg(cfg), count_sizes(cfg)
+    dim = sorted(sz.items())
+    if rng.random() < 0.3:
+        rng.shuffle(dim)
+    return {"mode": "seqs", "deg_seq": [dg.get(i, 0) for i in range(N)], "dim_seq": [[k, v] for k, v in dim], "equal_totals": True,
+            "rescale": False, "ddtype": rng.choice(DDTYPES), **base}
+
+
+def gen_frozen(rng):
+    """a chain that cannot move (burn_in_steps = intermediate_steps = 0) from an initial hypergraph: every sample is made
+    from the initial hypergraph, so every conditioned degree and size is met in EVERY sample; ONE community, u = c for all
+    nodes: the Poisson mean of a hyperedge depends on its size only and c is spread so that the means cover every rate
+    regime; the adversarial draw source is on in 3 of 4 cases"""
+    N = rng.randint(4, 9)
+    c = rng.choice([1, 2, 3, 4, 6, 8, 11, 16, 23, 32, 45, 64, 90, 128, 181, 256, 362, 512, 1024])
+    edges = [list(e) for e in gen_edges(rng, list(range(N)), rng.randint(2, 9))]
+    used = {x for e in edges for x in e}
+    return {"mode": "hyg", "edges": edges, "isolated": [x for x in range(N) if x not in used], "lkind": "num", "weighted": False,
+            "u": [[c]] * N, "w": [[rng.choice([1, 2, 3, 5, 7])]], "udiv": 8, "wdiv": rng.choice([1, 8]), "D": None, "exact": True, "burn": 0, "thin": 0,
+            "seed": rng.randint(0, 10**6), "ustream": rng.choice([0, 1, 1, 2]), "nsamples": 5, "frozen": True}
+
+
+def check_degenerate(ctx, drv, case):
+    """cases with degenerate sizes are judged by the property's words alone (the model's hypotheses exclude sizes < 2):
+    every sample is a valid hypergraph with hyperedges of size >= 2 only; nothing exceeds its conditioned degree / count
+    (the degenerate hyperedges count in the conditioning); whenever no two hyperedges of size >= 2 of the chain state coincide,
+    the sample consists of exactly these hyperedges; same seed, same samples - recorded twice and without instrumentation"""
+    t1, t2 = Trace(), Trace()
+    r1 = run_sampler(case, t1)
+    r2 = run_sampler(case, t2)
+    r3 = run_naked(case) if not case.get("ustream", 0) else None
+    has_empty = case["mode"] == "hyg" and any(len(e) == 0 for e in case["edges"])
+    ctx.case(repr(sorted((k, repr(v)) for k, v in case.items())), r1["exc"] is None, sample=case)
+    ctx.count("degenerate_" + case["mode"])
+    ctx.count("degenerate_with_empty_hyperedge", int(has_empty))
+    if "timeout" in (r1["exc"], r2["exc"], r3["exc"] if r3 else None):
+        ctx.violation(case, "the sampler did not deliver its samples within the time limit (non-termination guard)")
+        return
+    if (r1["out"], r1["exc"] is None) != (r2["out"], r2["exc"] is None):
+        ctx.violation(case, "two samplers built with the same parameters and seed produced different sequences of samples")
+    if r3 is not None and (r1["out"], r1["exc"] is None) != (r3["out"], r3["exc"] is None):
+        ctx.violation({**case, "run": "uninstrumented"}, "a sampler without any instrumentation and the recorded sampler, same parameters and seed, "
+                      f"produced different sequences of samples: {str(r3['out'])[:300]} ({r3['exc']}) vs {str(r1['out'])[:300]} ({r1['exc']})")
+    if r1["exc"]:
+        ctx.count("degenerate_raising")
+        if not has_empty and not legit_exception(case, t1):
+            ctx.violation(case, f"the sampler raised {r1['exc']} on an input with one-node hyperedges although every draw it needs exists")
+    try:
+        # the general clauses (sizes >= 2, weights, nodes, nothing above its conditioned degree / count) - exactness is judged below
+        for res, tr, tag in ((r1, t1, ""), (r3, None, "uninstrumented")):
+            if res is not None:
+                oracle_outputs(ctx, {**case, "burn": 1}, {**res, "hs": list(res["hs"])}, _NoExact(tr), None, tag=tag)
+        oracle_weights_degenerate(ctx, case, t1)
+        oracle_chain(ctx, case, t1)
+        ys = t1.routine["yields"] if t1.routine else []
+        inv = None
+        if case["mode"] == "hyg" and "h0" in r1:
+            nodes = sorted(r1["h0"].get_nodes())
+            inv = {i: plain(x) for i, x in enumerate(nodes)}
+        for k, o in enumerate(r1["out"]):
+            if k >= len(ys):
+                break
+            proper = [frozenset(inv[x] if inv else x for x in e) for e in ys[k] if len(e) >= 2]
+            got = [frozenset(e) for e, _ in o]
+            if len(set(proper)) == len(proper) and set(got) != set(proper):
+                ctx.violation({**case, "sample_no": k}, f"sample {k}: no two hyperedges of size >= 2 of the chain state coincide, but the sample {sorted(map(sorted, got))} "
+                              f"is not the set of its hyperedges of size >= 2 {sorted(map(sorted, proper))}{lost_weights(t1, k)}")
+            elif set(got) != set(proper):
+                ctx.violation({**case, "sample_no": k}, f"sample {k} {sorted(map(sorted, got))} does not consist of the hyperedges of size >= 2 of the chain state {sorted(map(sorted, proper))}")
+        m = t1.match
+        if case["mode"] == "seqs" and m is not None and "result" in m:
+            # the construction extracts a one-node hyperedge (its node loses one unit of degree) and does not keep it
+            dim = {int(a): int(b) for a, b in case["dim_seq"] if int(b) > 0 and int(a) >= 2}
+            ones = sum(int(b) for a, b in case["dim_seq"] if int(a) == 1)
+            got_sz = {a: b for a, b in count_sizes(m["result"]).items() if a >= 2}
+            kept = sum(1 for e in m["result"] if len(e) == 1)
+            if got_sz != dim or kept > ones:
+                ctx.violation(case, f"_match_sequences: size counts {count_sizes(m['result'])} != requested {dim} (flag {m['flag']})")
+            want = {i: int(d) for i, d in enumerate(case["deg_seq"])}
+            use = count_deg(m["result"])
+            if m["flag"] is True and (any(d > want.get(x, 0) for x, d in use.items()) or sum(want.values()) - sum(use.values()) != ones - kept):
+                ctx.violation(case, f"_match_sequences reports matching sequences but node usage {use} is not the degree sequence {want} less {ones} one-node hyperedges")
+    except Exception as e:  # noqa: BLE001
+        ctx.violation(case, f"the yielded objects cannot be inspected as weighted hypergraphs: {type(e).__name__}: {e}")
+    if drv is not None and t1.routine and (case["mode"] != "hyg" or "h0" in r1):
+        # the output stage on the model with degenerate hyperedges (C16.outputStageD: a hyperedge with fewer than two nodes has a
+        # nan mean, hence a non-positive weight, whatever the quantile tape holds): every delivered sample
+        try:
+            tape = quantile_tape(t1)
+            if case["mode"] == "hyg":
+                nodes = sorted(r1["h0"].get_nodes())
+                code = {plain(x): 3 + 7 * i for i, x in enumerate(nodes)}
+                labels = hgxv.enc_list([code[plain(x)] for x in nodes])
+            else:
+                code, labels = None, "-"
+            lines, wants = [], []
+            for k, o in enumerate(r1["out"]):
+                if k >= len(t1.routine["yields"]) or k >= len(tape):
+                    break
+                lines.append(f"outd {hgxv.enc_lists(t1.routine['yields'][k])} {hgxv.enc_list(tape[k])} {labels}")
+                wants.append(sorted(((tuple(sorted((code[x] if code else x) for x in e)), int(wt)) for e, wt in o), key=repr))
+            for ln, a, want in zip(lines, drv.batch(lines) if lines else [], wants):
+                got = None if a in ("none", "bad-op") else sorted(dec_outs(a)[0], key=repr)
+                ctx.count("degenerate_output_replays")
+                if got != want:
+                    ctx.disagree({**case, "line": ln}, f"sample with degenerate hyperedges in the chain state: model {got if got is not None else a} implementation {want}")
+        except Exception as e:  # noqa: BLE001
+            ctx.disagree(case, f"recorded run cannot be encoded for the model: {type(e).__name__}: {e}")
+    if drv is not None and t1.routine and r1["exc"] is None and not has_empty:
+        # the chain itself (sizes are immaterial to the reshuffle) on the model
+        try:
+            burn, blocks = split_steps(t1, case["burn"], case["thin"], len(t1.routine["yields"]))
+            rec = t1.routine
+            ln = f"chain {hgxv.enc_lists(rec['init'])} {hgxv.enc_lists(rec['fixed'])} {enc_steps(burn)} {enc_blocks(blocks)}"
+            a = drv.ask(ln)
+            got = None if a in ("none", "bad-op") else [[sorted(e) for e in c] for c in dec_cfgs(a)]
+            if got != rec["yields"]:
+                ctx.disagree({**case, "line": ln}, f"chain states differ: model {got if got is not None else a} implementation {rec['yields']}")
+        except Exception as e:  # noqa: BLE001
+            ctx.disagree(case, f"recorded run cannot be encoded for the model: {type(e).__name__}: {e}")
+
+
+class _NoExact:
+    """a recording as seen by `oracle_outputs` with the exactness clause switched off (every chain state counts as one with
+    coinciding hyperedges): the degenerate stream judges exactness itself, on the hyperedges of size >= 2"""
+
+    def __init__(self, trace):
+        self.routine = None if trace is None or trace.routine is None else {"yields": [[[0], [0]] for _ in trace.routine["yields"]]}
+        self.tp_calls = [] if trace is None else trace.tp_calls
+
+
+def oracle_weights_degenerate(ctx, case, trace):
+    """truncated-Poisson contract on every recorded call, for the rates that are numbers (a one-node hyperedge has the rate nan)"""
+    for k, rec in enumerate(trace.tp_calls):
+        if len(rec["raw"]) != len(rec["mean"]):
+            ctx.violation({**case, "sample_no": k}, f"sample_truncated_poisson returned {len(rec['raw'])} values for {len(rec['mean'])} rates")
+            continue
+        bad = [(i, float(x), m) for i, (x, m) in enumerate(zip(rec["raw"], rec["mean"])) if m == m and (nat_of(x) or 0) < 1]
+        ctx.count("tp_mean_nan", sum(1 for m in rec["mean"] if m != m))
+        if bad:
+            ctx.violation({**case, "sample_no": k}, f"sample_truncated_poisson returned values that are no integers >= 1 (index, value, rate): {bad[:4]}")
+
+
 def quiet():
     import logging
     import warnings
@@ -2356,6 +2636,7 @@ def run(ctx):
     # the streams of the extension round draw from their own PRNG: the cases of the older streams stay what they were per seed
     import random
     xr = random.Random(ctx.seed * 7919 + 16)
+    fr = random.Random(ctx.seed * 104729 + 1606)
     for i in range(n):
         case = gens[i % 4](ctx.rng)
         check_case(ctx, drv, case)
@@ -2371,6 +2652,13 @@ def run(ctx):
             direct_extract(ctx, drv, ctx.rng)
             direct_trunc(ctx, drv, ctx.rng)
         direct_dict(ctx, drv, ctx.rng)
+        # round f (own PRNG again)
+        for _ in range(3):
+            unit_trunc(ctx, fr)
+        if i % 3 == 0:
+            check_degenerate(ctx, drv, gen_degenerate(fr))
+        if i % 3 == 1:
+            check_case(ctx, drv, gen_frozen(fr))
         if ctx.too_many() or ctx.extra.get("timed_out") or (ctx.time_left() is not None and ctx.time_left() < 5):
             break
 
@@ -2382,6 +2670,8 @@ def replay(ctx, case):
     mode = case.get("mode")
     if mode == "session":
         check_session(ctx, drv, case)
+    elif case.get("degenerate"):
+        check_degenerate(ctx, drv, case)
     elif mode in ("hyg", "seqs", "model", "degonly", "dimonly"):
         check_case(ctx, drv, case)
     else:
